@@ -273,6 +273,7 @@ func init() {
 
 	props["C01"] = func(x *Ctx) {
 		fns := []string{"Index", "Contains"}
+		x.ratioSweep(fns, false)
 		x.thresholdSweep(fns, streamValid, 80, 40)
 		x.pairsFor(fns, valid, 120000*x.scale)
 		relC01(x, 20000*x.scale)
@@ -308,6 +309,7 @@ func init() {
 		relC04(x, 60000*x.scale)
 	}
 	props["C06"] = func(x *Ctx) {
+		x.ratioSweep(allSS, true)
 		x.pairsFor(allSS, ill, 12000*x.scale)
 		x.affixFor(allSS, ill, 6000*x.scale)
 		x.runesFor(ill, 20000*x.scale)
@@ -318,6 +320,7 @@ func init() {
 		relC06(x)
 	}
 	props["C07"] = func(x *Ctx) {
+		x.ratioSweep(allSS, true)
 		x.pairsFor(allSS, both, 12000*x.scale)
 		x.affixFor(allSS, both, 6000*x.scale)
 		x.runesFor(both, 20000*x.scale)
@@ -328,12 +331,14 @@ func init() {
 	}
 	props["C08"] = func(x *Ctx) {
 		fns := []string{"LastIndex"}
+		x.ratioSweep(fns, false)
 		x.thresholdSweep(fns, streamValid, 80, 40)
 		x.pairsFor(fns, valid, 150000*x.scale)
 		relC08(x, 30000*x.scale)
 	}
 	props["C09"] = func(x *Ctx) {
 		fns := []string{"HasPrefix", "HasSuffix", "TrimPrefix", "TrimSuffix", "CutPrefix", "CutSuffix"}
+		x.ratioSweep(fns, false)
 		x.affixFor(fns, valid, 60000*x.scale)
 		x.pairsFor(fns, valid, 20000*x.scale)
 		x.thresholdSweep(fns, streamValid, 40, 40)
@@ -349,6 +354,7 @@ func init() {
 	}
 	props["C12"] = func(x *Ctx) {
 		fns := []string{"Count", "Cut"}
+		x.ratioSweep(fns, false)
 		x.pairsFor(fns, valid, 120000*x.scale)
 		x.thresholdSweep(fns, streamValid, 60, 20)
 		for _, c := range "KkSsaZ1" { // single byte needles
@@ -360,6 +366,7 @@ func init() {
 		}
 	}
 	props["C15"] = func(x *Ctx) {
+		x.ratioSweep(allSS, true)
 		x.pairsFor(allSS, ill, 12000*x.scale)
 		x.affixFor(allSS, ill, 6000*x.scale)
 		x.runesFor(ill, 15000*x.scale)
